@@ -64,23 +64,26 @@ def load_file(data, root, **kw):
 
 
 def sniffed_decode(data, strip, limit):
-    """what load() returns if the dialect is the one csv.Sniffer guesses from the first lines (tabulator's CSV parser does
-    exactly this unless a delimiter is given): (differs_from_default, header, rows)"""
-    from tabulator import config
-    text = io.StringIO(data.decode('utf8'), newline=None).read()
-    lines = io.StringIO(text).readlines()[:config.CSV_SAMPLE_LINES]
+    """what the third-party table reader that load() drives (tabulator's Stream with its CSV parser) makes of the file
+    when it is left to guess the dialect - csv.Sniffer over ',', tab, ';', '|' on the first lines, then header detection
+    and blank-row skipping under the guessed dialect - followed by load's documented strip / limit_rows:
+    (guessed dialect differs from the default one, header, rows).  Used ONLY to recognise the known finding
+    C13-dialect-is-sniffed: the reader is called here directly, not through dataflows."""
+    import tempfile
+    from tabulator import Stream
+    fd, path = tempfile.mkstemp(suffix='.csv', dir=tlc.WORK_ROOT)
     try:
-        dialect = csv.Sniffer().sniff(''.join(lines), ',\t;|')
-        if not dialect.escapechar:
-            dialect.doublequote = True
-    except csv.Error:
-        class dialect(csv.excel):
-            pass
-    differs = dialect.delimiter != ',' or bool(dialect.skipinitialspace) or dialect.quotechar != '"'
-    table = list(csv.reader(io.StringIO(text), dialect=dialect))
-    hdr, rows = (table[0], table[1:]) if table else ([], [])
-    # keyed rows: values are paired with the header; surplus values are dropped, missing ones are null
-    rows = [[(r[i] if i < len(r) else '') for i in range(len(hdr))] for r in rows if r != []]
+        with os.fdopen(fd, 'wb') as f:
+            f.write(data)
+        with Stream(path, headers=1, ignore_blank_headers=True, skip_rows=[{'type': 'preset', 'value': 'auto'}], sample_size=1000) as st:
+            d = st.dialect or {}
+            differs = d.get('delimiter', ',') != ',' or bool(d.get('skipInitialSpace')) or d.get('quoteChar', '"') != '"' or not d.get('doubleQuote', True)
+            hdr = list(st.headers or [])
+            rows = [[('' if r.get(h) is None else r.get(h)) for h in hdr] for r in st.iter(keyed=True)]
+    except Exception:
+        return False, None, None
+    finally:
+        os.unlink(path)
     ws = set(' \t\n\r')
     if strip:
         rows = [[(v.strip() if v and (v[-1] in ws or v[0] in ws) else v) for v in r] for r in rows]
